@@ -20,7 +20,7 @@ from .common import fl, close
 PROP = "C10"
 METRICS = ["DSC", "IOU", "RVD"]
 META = {
-    "bounds": {"quick": "bounding boxes of symbolic non-empty maps 1-D 5 and 2-D 2x3 with pad 0..2; per-instance crop vs. uncropped kernels on 1-D 8 binary maps; embedding of 1-D 3 maps into length 6 at every offset and of 1x3 into 2x4; "
+    "bounds": {"quick": "pair-object crop requested twice on 1-D 8 binary maps; bounding boxes of symbolic non-empty maps 1-D 5 and 2-D 2x3 with pad 0..2; per-instance crop vs. uncropped kernels on 1-D 8 binary maps; embedding of 1-D 3 maps into length 6 at every offset and of 1x3 into 2x4; "
                         "reversal of 1-D 3 maps, transposition / flip of 1x3 maps and one slice of the 2x2 transposition cases through the whole pipeline (unmatched input, free matching threshold); ASSD kernel of 1-D 3 masks vs. the masks embedded in length 5 at a symbolic offset",
                "thorough": "bounding boxes 3x3 and 2x2x2; crop on 1-D 10; embeddings of 1-D 4 and of 2x2 into 3x3; reversal of 1-D 4 and transposition / both flips of 2x2 maps"},
     "stubs": ["multiprocessing.Pool := serial"],
@@ -34,6 +34,9 @@ def cases(tier):
     out = []
     for shp in ([(5,), (2, 3)] if tier == "quick" else [(5,), (3, 3), (2, 2, 2)]):
         out.append({"name": "bbox_%s" % "x".join(map(str, shp)), "what": "bbox", "shape": shp})
+    # the pair object's own crop, asked for twice (e.g. two evaluation passes over one pair object): idempotent, and no foreground voxel is
+    # lost wherever the foreground lies in the array (the second request must not re-apply original-array coordinates)
+    out.append({"name": "pair_crop_twice_1d_%d" % (8 if tier == "quick" else 10), "what": "paircrop", "shape": (8 if tier == "quick" else 10,)})
     N = 8 if tier == "quick" else 10
     for f in range(4):
         out.append({"name": "instance_crop_1d_%d_f%d" % (N, f), "what": "crop", "shape": (N,), "fix": f})
@@ -137,6 +140,41 @@ def run_case(case):
                 h.ok("box_is_tight_box_widened_by_pad_and_clipped", got == want, detail={"axis": ax, "got": [got[0], got[-1]] if got else [], "want": [want[0], want[-1]], "pad": pad})
                 if first == 0 or last == shape[ax] - 1:
                     h.note_nontrivial((ax, first, last, pad))
+            h.witness(expect=None)
+        return explore_case(h, body, base=base, time_budget=3000)
+
+    if what == "paircrop":
+        pv, rv, base = e2e.sym_arrays(shape, 1, "uint8")
+        base = base + [z3.Or([v != 0 for v in pv + rv])]
+
+        def decode(m):
+            return {"what": "paircrop", "shape": list(shape), "pred": [jsonable(v, m) for v in pv], "ref": [jsonable(v, m) for v in rv]}
+        h = H(PROP, case["name"], decode, replay_kind="paircrop", max_witnesses=40)
+        PPm = T.mod("panoptica.utils.processing_pair")
+
+        def body():
+            pa = SArr(list(pv), "uint8", shape).protect("caller prediction")
+            ra = SArr(list(rv), "uint8", shape).protect("caller reference")
+            try:
+                pair = PPm.MatchedInstancePair(pa, ra)
+                pair.crop_data()
+                c1p, c1r = list(pair.prediction_arr.cells), list(pair.reference_arr.cells)
+                pair.crop_data()
+                c2p, c2r = list(pair.prediction_arr.cells), list(pair.reference_arr.cells)
+            except EngineSignal:
+                raise
+            except WriteToProtected as e:
+                h.fail("no_input_mutation", detail=str(e))
+                return
+            except Exception as e:
+                h.fail("crop_completes", detail="%s: %s" % (type(e).__name__, str(e)[:120]))
+                return
+            cnt = lambda cells: z3.Sum([z3.If(cnum(c) != 0, 1, 0) for c in cells]) if cells else z3.IntVal(0)
+            h.ok("crop_keeps_every_foreground_voxel", z3.And(cnt(c1p) == cnt(pv), cnt(c1r) == cnt(rv)))
+            h.ok("second_crop_request_changes_nothing", len(c2p) == len(c1p) and len(c2r) == len(c1r) and z3.And([cnum(a) == cnum(b) for a, b in zip(c1p + c1r, c2p + c2r)] + [z3.BoolVal(True)]),
+                 detail={"len_after_first": len(c1p), "len_after_second": len(c2p)})
+            if len(c1p) < len(pv):
+                h.note_nontrivial((len(c1p),))
             h.witness(expect=None)
         return explore_case(h, body, base=base, time_budget=3000)
 
@@ -245,6 +283,25 @@ def real_bbox(case, mode, expect):
     return {"match": True, "violates": bad is not None, "reason": bad, "observed": None}
 
 
+def real_paircrop(case, mode, expect):
+    import numpy as np
+    from panoptica.utils.processing_pair import MatchedInstancePair
+    shape = tuple(case["shape"])
+    pred = np.array(case["pred"], dtype=np.uint8).reshape(shape)
+    ref = np.array(case["ref"], dtype=np.uint8).reshape(shape)
+    pair = MatchedInstancePair(pred.copy(), ref.copy())
+    pair.crop_data()
+    a1, b1 = np.array(pair.prediction_arr), np.array(pair.reference_arr)
+    pair.crop_data()
+    a2, b2 = np.array(pair.prediction_arr), np.array(pair.reference_arr)
+    bad = None
+    if np.count_nonzero(a1) != np.count_nonzero(pred) or np.count_nonzero(b1) != np.count_nonzero(ref):
+        bad = "crop_keeps_every_foreground_voxel: %s / %s cropped to %s / %s" % (pred.tolist(), ref.tolist(), a1.tolist(), b1.tolist())
+    elif a1.shape != a2.shape or not (np.array_equal(a1, a2) and np.array_equal(b1, b2)):
+        bad = "second_crop_request_changes_nothing: %s / %s: first crop %s / %s, after the second request %s / %s" % (pred.tolist(), ref.tolist(), a1.tolist(), b1.tolist(), a2.tolist(), b2.tolist())
+    return {"match": True, "violates": bad is not None, "reason": bad, "observed": None}
+
+
 def real_crop(case, mode, expect):
     import numpy as np
     from panoptica import Metric
@@ -329,4 +386,4 @@ def _real_assd_embed(case, mode, expect):
     return C07.real_embed(case, mode, expect)
 
 
-REAL = {"bbox": real_bbox, "crop": real_crop, "tworun": real_tworun, "embed": _real_assd_embed}
+REAL = {"bbox": real_bbox, "paircrop": real_paircrop, "crop": real_crop, "tworun": real_tworun, "embed": _real_assd_embed}
